@@ -376,6 +376,8 @@ def run_step(d, step):
         if not step["symm"]:
             kw["triucheck"] = False
         kw.update(_opts(step))
+        if "ensure_sorted" in step:
+            kw["ensure_sorted"] = bool(step["ensure_sorted"])
         create_scool(os.path.join(d, step["out"]), bins, cells, ordered=True, **kw)
     else:
         raise AssertionError(op)
@@ -570,6 +572,55 @@ def gen_create_ensure_sorted(rng, out, how, api, symm=None, widths=None, shape=N
     chunks = [disorder(rng, ch, how) for ch in row_partition(rng, recs)]
     return {"op": "create", "out": out, "group": "", "append": False, "widths": widths, "symm": symm, "input": "ordered",
             "chunks": chunks, "ensure_sorted": True, "api": api, "disorder": how}
+
+
+def gen_option_grid(rng):
+    """The full boolean grid boundscheck x triucheck x dupcheck x ensure_sorted x symmetric_upper for every
+    producer that takes these options: create() and create_cooler(ordered=True) on an iterator of chunks,
+    create_cooler on a frame, create_cooler(ordered=False) with a small merge buffer, create_scool cells.
+    The input always satisfies what the switched-off checks would have checked (in bounds, no duplicate,
+    upper triangular in symmetric mode); it is internally UNSORTED exactly when ensure_sorted=True (or when
+    the producer sorts by contract: a frame handed to create_cooler) and sorted otherwise, because sorted
+    input is the caller's documented obligation when ensure_sorted=False."""
+    import itertools
+    R = []
+    for prod in ("create", "create_cooler_ordered", "frame", "unordered", "scool"):
+        for bc, tc, dc, es, symm in itertools.product([True, False], repeat=5):
+            widths = rand_widths(rng, maxchrom=2, maxbins=4)
+            n = nbins_of(widths)
+            cells = rand_cells(rng, n, symm, rng.choice(["sparse", "dense", "gaprows", "sparse"]))
+            if len(cells) < 3 and n >= 2:
+                cells = rand_cells(rng, n, symm, "dense")
+            recs = rand_records(rng, sorted(cells))
+            how = rng.choice(["shuffle", "cols", "cols"]) if es else "sorted"
+            opts = {"boundscheck": bc, "triucheck": tc, "dupcheck": dc}
+            base = {"out": "g.cool", "group": "", "append": False, "widths": widths, "symm": symm, "opts": opts,
+                    "grid": [prod, bc, tc, dc, es, symm]}
+            if prod in ("create", "create_cooler_ordered"):
+                chunks = [disorder(rng, ch, how) for ch in row_partition(rng, recs, maxchunks=3)]
+                st = dict(base, op="create", input="ordered", chunks=chunks, ensure_sorted=es,
+                          api="create" if prod == "create" else "create_cooler")
+            elif prod == "frame":
+                st = dict(base, op="create", input="frame", chunks=[disorder(rng, recs, "shuffle")])
+                st["opts"] = dict(opts, ensure_sorted=es)
+            elif prod == "unordered":
+                k = rng.randint(1, 3)
+                chunks = []
+                for _ in range(k):
+                    sub = sorted(rng.sample(cells, rng.randint(0, len(cells)))) if cells else []
+                    chunks.append(disorder(rng, rand_records(rng, sub), how))
+                if cells and all(len(c) == 0 for c in chunks):
+                    chunks[0] = disorder(rng, recs, how)
+                st = dict(base, op="create", input="unordered", chunks=chunks, ensure_sorted=es,
+                          mergebuf=rng.choice([1, 2, 3]), max_merge=rng.choice([1, 2, 200]))
+            else:
+                cellsd = {}
+                for name in ("c1", "c2"):
+                    sub = sorted(rng.sample(cells, rng.randint(0, len(cells)))) if cells else []
+                    cellsd[name] = disorder(rng, rand_records(rng, sub), how)
+                st = dict(base, op="scool", out="g.scool", cells=cellsd, ensure_sorted=es)
+            R.append([st])
+    return R
 
 
 # count dtypes the writer accepts, with values that are exactly representable in them; 8-bit kinds use
